@@ -438,6 +438,21 @@ func runC24(c *Ctx) error {
 						return err
 					}
 					bl = b
+					// the INIT ballots of an expel flow: an ordinary INIT ballot whose fact carries expel facts, and the
+					// suffrage-confirm ballot that follows it; the two live under different keys of one stage point
+					if kind := c.Intn(4); kind >= 2 {
+						efacts := []util.Hash{valuehash.RandomSHA256()}
+						var fact base.INITBallotFact = isaac.NewINITBallotFact(point, prevs[c.Intn(2)], valuehash.RandomSHA256(), efacts)
+						if kind == 3 {
+							fact = isaac.NewSuffrageConfirmBallotFact(point, prevs[c.Intn(2)], valuehash.RandomSHA256(), efacts)
+							sc = true
+						}
+						sf := isaac.NewINITBallotSignFact(fact)
+						if err := sf.NodeSign(signer.Privatekey(), hNetworkID, signer.Address()); err != nil {
+							return err
+						}
+						bl = isaac.NewINITBallot(b.Voteproof(), sf, nil)
+					}
 				}
 				id := nextB
 				nextB++
@@ -454,15 +469,20 @@ func runC24(c *Ctx) error {
 				if acc {
 					stage = base.StageACCEPT
 				}
-				bl, found, err := pool.Ballot(point, stage, false)
+				wantSC := !acc && c.Chance(1, 3)
+				bl, found, err := pool.Ballot(point, stage, wantSC)
 				if err != nil {
 					return err
 				}
 				res := "none"
 				if found {
 					res = fmt.Sprint(ballotID[bl.SignFact().Node().String()+bl.SignFact().Fact().Hash().String()])
+					if isaac.IsSuffrageConfirmBallotFact(bl.SignFact().Fact()) != wantSC {
+						c.Violation("C24:ballot-under-the-wrong-key", fmt.Sprintf("history %s: Ballot(%v, %v, suffrage-confirm=%v) returns a ballot whose fact is suffrage-confirm=%v", strings.Join(toks, " "), point, stage, wantSC, !wantSC),
+							map[string]interface{}{"history": toks})
+					}
 				}
-				toks = append(toks, fmt.Sprintf("gb:%d.%d.%s.0", h, r, b01(acc)))
+				toks = append(toks, fmt.Sprintf("gb:%d.%d.%s.%s", h, r, b01(acc), b01(wantSC)))
 				outs = append(outs, res)
 			case k < 14: // SetProposal: new fact, or an existing fact re-signed
 				pi := c.Intn(len(nodes))
@@ -483,7 +503,23 @@ func runC24(c *Ctx) error {
 					}
 					pr = sf
 				} else {
-					p, err := hProposal(point, nodes[pi], prevs[pv], [][2]util.Hash{{valuehash.RandomSHA256(), valuehash.RandomSHA256()}})
+					ppoint := point
+					if len(facts) > 0 && c.Chance(1, 3) {
+						// another proposal (other operations) for the point, proposer and previous block of an earlier one:
+						// a proposer that makes its proposal again
+						f := facts[c.Intn(len(facts))]
+						ppoint = f.Point()
+						for i := range nodes {
+							if nodes[i].Address().Equal(f.Proposer()) {
+								pi = i
+							}
+						}
+						pv = 0
+						if f.PreviousBlock().Equal(prevs[1]) {
+							pv = 1
+						}
+					}
+					p, err := hProposal(ppoint, nodes[pi], prevs[pv], [][2]util.Hash{{valuehash.RandomSHA256(), valuehash.RandomSHA256()}})
 					if err != nil {
 						return err
 					}
